@@ -248,4 +248,29 @@ theorem src_iter_splitlines_eq_model (t : List Nat) :
 example : iter_splitlines [104, 13, 10, 105, 10] (PyRtC19.finditerSpans Generated.lineEndings [104, 13, 10, 105, 10])
     = [[104], [105], []] := by decide
 
+
+/-! ### indent -/
+
+theorem join_eq_joinWith (sep : List Nat) (ls : List (List Nat)) : PyRtC19.join sep ls = joinWith sep ls := by
+  induction ls with
+  | nil => rfl
+  | cons l ls ih =>
+    cases ls with
+    | nil => rfl
+    | cons l2 ls => simp only [PyRtC19.join, joinWith, ih]
+
+/-- **the tie of `indent`**: for EVERY predicate `key` (the instance), margin, newline and text, the generated
+    definition over the declared `finditer` spans is the hand model's `indent key margin newline t` -/
+theorem src_indent_eq_model (key : List Nat → Bool) (margin newline t : List Nat) :
+    @Src.strutils.indent Nat ⟨key⟩ t margin newline (PyRtC19.finditerSpans Generated.lineEndings t)
+      = C19.indent key margin newline t := by
+  simp only [Src.strutils.indent, Src.strutils.indent.body, src_iter_splitlines_eq_model, C19.indent, join_eq_joinWith,
+    PyRtC19.lineKey]
+  first
+    | rfl
+    | (congr 2; funext l; cases key l <;> simp)
+
+example : @Src.strutils.indent Nat ⟨keyBool⟩ [97, 10, 10, 98] [32] [10] (PyRtC19.finditerSpans Generated.lineEndings [97, 10, 10, 98])
+    = [32, 97, 10, 10, 32, 98] := by decide
+
 end C19
